@@ -4,10 +4,6 @@ use serde_json::Value;
 
 use super::engine::Ctx;
 
-pub mod c01;
-pub mod c02;
-pub mod c09;
-
 pub struct Meta {
     /// how cases are generated and what makes one non-trivial / distinct
     pub rule: &'static str,
@@ -19,31 +15,34 @@ pub struct Meta {
     pub exhaustive_when_sections: &'static [&'static str],
 }
 
-pub const ALL: &[&str] = &["C01", "C02", "C09"];
-
-pub fn run(id: &str, ctx: &mut Ctx) {
-    match id {
-        "C01" => c01::run(ctx),
-        "C02" => c02::run(ctx),
-        "C09" => c09::run(ctx),
-        _ => ctx.infra(format!("no such property {}", id)),
-    }
+macro_rules! props {
+    ($($id:literal => $m:ident),* $(,)?) => {
+        $(pub mod $m;)*
+        pub const ALL: &[&str] = &[$($id),*];
+        pub fn run(id: &str, ctx: &mut Ctx) {
+            match id {
+                $($id => $m::run(ctx),)*
+                _ => ctx.infra(format!("no such property {}", id)),
+            }
+        }
+        pub fn replay(id: &str, section: &str, case: &Value, ctx: &mut Ctx) {
+            match id {
+                $($id => $m::replay(section, case, ctx),)*
+                _ => ctx.infra(format!("no such property {}", id)),
+            }
+        }
+        pub fn meta(id: &str) -> Meta {
+            match id {
+                $($id => $m::META,)*
+                _ => Meta { rule: "", assumptions: &[], required_classes: &[], exhaustive_when_sections: &[] },
+            }
+        }
+    };
 }
 
-pub fn replay(id: &str, section: &str, case: &Value, ctx: &mut Ctx) {
-    match id {
-        "C01" => c01::replay(section, case, ctx),
-        "C02" => c02::replay(section, case, ctx),
-        "C09" => c09::replay(section, case, ctx),
-        _ => ctx.infra(format!("no such property {}", id)),
-    }
-}
-
-pub fn meta(id: &str) -> Meta {
-    match id {
-        "C01" => c01::META,
-        "C02" => c02::META,
-        "C09" => c09::META,
-        _ => Meta { rule: "", assumptions: &[], required_classes: &[], exhaustive_when_sections: &[] },
-    }
+props! {
+    "C01" => c01,
+    "C02" => c02,
+    "C04" => c04,
+    "C09" => c09,
 }
